@@ -1,6 +1,7 @@
 package main
 
 import (
+	"os"
 	"encoding/hex"
 	"io"
 	"math/rand"
@@ -17,11 +18,17 @@ type memConn struct {
 	delta       []byte   // bytes written since last take()
 	chunks      [][]byte // what the peer sent
 	eofWithLast bool     // the last fragment is returned together with io.EOF (allowed by io.Reader)
+	wdeadline   time.Time
+	all         []byte // everything written so far
 }
 
 func (c *memConn) take() []byte { d := c.delta; c.delta = nil; return d }
 func (c *memConn) Write(p []byte) (int, error) {
+	if !c.wdeadline.IsZero() && !time.Now().Before(c.wdeadline) {
+		return 0, &net.OpError{Op: "write", Err: os.ErrDeadlineExceeded}
+	}
 	c.delta = append(c.delta, p...)
+	c.all = append(c.all, p...)
 	return len(p), nil
 }
 func (c *memConn) Read(p []byte) (int, error) {
@@ -44,7 +51,7 @@ func (c *memConn) LocalAddr() net.Addr              { return nil }
 func (c *memConn) RemoteAddr() net.Addr             { return nil }
 func (c *memConn) SetDeadline(time.Time) error      { return nil }
 func (c *memConn) SetReadDeadline(time.Time) error  { return nil }
-func (c *memConn) SetWriteDeadline(time.Time) error { return nil }
+func (c *memConn) SetWriteDeadline(t time.Time) error { c.wdeadline = t; return nil }
 
 func runC17(seed int64, count int) {
 	rng := rand.New(rand.NewSource(seed))
@@ -146,6 +153,27 @@ func runC17(seed int64, count int) {
 			emit("C17 read %d %s", k, hexOrDash(buf[:n]))
 		}
 		_ = hex.EncodeToString
+		// a write deadline that expires during a flush, after which the caller goes on using the transport: whatever the
+		// peer has received must remain a prefix of what the transport accepted (never later bytes without earlier ones)
+		if ws > 0 && cs%3 == 0 {
+			c4 := &memConn{}
+			t4 := transport.NewTransport(c4, rs, ws)
+			var accepted []byte
+			w := func(p []byte) {
+				if n, err := t4.Write(p); err == nil && n == len(p) {
+					accepted = append(accepted, p...)
+				}
+			}
+			w(payload(1 + rng.Intn(ws+2)))
+			t4.SetWriteDeadline(time.Now().Add(-time.Second)) // already expired
+			t4.Flush()
+			t4.SetWriteDeadline(time.Time{})
+			w(payload(1 + rng.Intn(ws+2)))
+			t4.Flush()
+			w(payload(1 + rng.Intn(3)))
+			t4.Flush()
+			emit("C17 dl %s %s", hexOrDash(accepted), hexOrDash(c4.all))
+		}
 		// connections are independent: after this transport is closed (once or twice) and written to once more by a
 		// holder that has not noticed, new transports of the same configuration carry exactly their own bytes
 		if ws > 0 && cs%4 == 0 {
